@@ -232,3 +232,12 @@ Proof.
   split; [|vm_compute; reflexivity].
   intros d' [<- | [<- | [<- | [<- | []]]]]; vm_compute; first [exact I | reflexivity].
 Qed.
+
+(* F46 (repaired in lark): an inlined ?rule handing through a child tree whose meta is empty, between
+   positioned tokens -  ?item: "[" emp "]" ,  emp:  on "[]".  Both ends are looked up among the children
+   before the result's meta is written (the model is functional, so this is its only reading): the
+   empty child is skipped on both sides and takes the span of the brackets, own and container. *)
+Example C06_empty_child_example :
+  build (PNode (Some 1%nat) OOther [PTok ((0, 1, 1), (1, 1, 2)); PNode None OOther []; PTok ((1, 1, 2), (2, 1, 3))])%Z
+  = SHTree (mkMeta (Some (0, 1, 1)) (Some (2, 1, 3)) (Some (0, 1, 1)) (Some (2, 1, 3)))%Z.
+Proof. vm_compute. reflexivity. Qed.
